@@ -68,7 +68,7 @@ def run(module, cfg_text, workdir, workers=16, timeout=600, coverage=False, simu
     with open(cfg, "w") as f:
         f.write(cfg_text)
     meta = os.path.join(workdir, "meta_%s_%d" % (module, int(time.time() * 1000) % 100000000))
-    cmd = ["java", "-XX:+UseParallelGC", "-Xmx" + heap]
+    cmd = ["java", "-XX:+UseParallelGC", "-XX:ParallelGCThreads=%d" % max(2, min(workers, 8)), "-Xmx" + heap]
     if depth_first:
         cmd.append("-Dtlc2.tool.queue.IStateQueue=StateDeque")
     cmd += list(java_opts)
